@@ -143,8 +143,8 @@ def corpus():
 
 def streams(ctx: lib.Ctx) -> None:
     cases = list(corpus())
-    cases += gen_random(ctx.rng, ctx.n(2500, 20000))
-    maxlen = ctx.n(4, 5)
+    cases += gen_random(ctx.rng, ctx.n(2500, 8000))
+    maxlen = 4
     widths = list(range(0, 8))
     small = [(t, w) for t in gen_exhaustive(maxlen) for w in widths]
     if not ctx.thorough:
@@ -210,5 +210,4 @@ def streams(ctx: lib.Ctx) -> None:
               multi_segment=len(nontrivial))
     for c in cases[:3] + cases[20:23]:
         ctx.sample({"text": c[0], "width": c[1]})
-    if ctx.thorough:
-        ctx.coverage["exhaustive"] = False
+    ctx.coverage["exhaustive"] = False
